@@ -511,6 +511,53 @@ def check_gen(ctx, model, idm, S, SUB, subs, cov):
             if got != members:
                 viol(ctx, "gen-incomplete", f"{SP_NAME[sp]}.gen_random_id({s[0]}:{s[1]}) cannot produce {sorted(members - got)[:3]}", {"kind": "gen_complete", "sp": sp, "sub": s}, space=SP_NAME[sp])
 
+    # completeness by exhaustive enumeration of the draws (every value randbelow can return, depth first), for
+    # subspaces small enough: the set of ids produced must be exactly the set of members
+    class NeedMore(Exception):
+        def __init__(self, n):
+            self.n = n
+
+    class Planned:
+        def __init__(self, plan):
+            self.plan, self.i = plan, 0
+
+        def randbelow(self, n):
+            if self.i >= len(self.plan):
+                raise NeedMore(n)
+            d = self.plan[self.i]
+            self.i += 1
+            if not 0 <= d < n:
+                raise ValueError("planned draw out of range")
+            return d
+
+    exhaustive = [((8, 1), (1, 3)), ((8, 1), (0, 2)), ((24, 0), (0, 2)), ((24, 0), (3, 4))]
+    if not ctx.quick():
+        exhaustive += [((24, 0), (0, 3)), ((24, 0), (254, 256)), ((8, 1), (250, 256))]
+    for sp, s in exhaustive:
+        sub = idm.IDSubspace(*s)
+        got = set()
+        stack = [[]]
+        runs = 0
+        try:
+            while stack:
+                plan = stack.pop()
+                idm.secrets = Planned(plan)
+                try:
+                    got.add(S[sp].gen_random_id(sub))
+                    runs += 1
+                except NeedMore as e:
+                    stack.extend(plan + [d] for d in range(e.n))
+        finally:
+            idm.secrets = saved
+        members = set(S[sp].all_ids(sub))
+        spec_members = {i for i in members if spec_in_sub_py(sp, s, i)}
+        cov.add({"kind": "gen_exhaustive", "sp": sp, "sub": s, "draw_sequences": runs}, klass="gen/exhaustive-draws")
+        if got != spec_members or members != spec_members:
+            missing = sorted(spec_members - got)[:3]
+            extra = sorted(got - spec_members)[:3]
+            viol(ctx, "gen-incomplete", f"{SP_NAME[sp]}.gen_random_id({s[0]}:{s[1]}) over ALL {runs} draw sequences: members never produced {[hex(x) for x in missing]}, non-members produced {[hex(x) for x in extra]}",
+                 {"kind": "gen_complete", "sp": sp, "sub": s}, space=SP_NAME[sp])
+
 
 class DrawAll:
     """randbelow(n) -> self.next (must be < n)."""
